@@ -1,5 +1,6 @@
 import FeatModel.Model.Proto
 import FeatModel.Model.GridTransfer
+import FeatModel.Model.GlobalTransfer
 /-! line-protocol driver for the C18 models (invert_matrix, grid-transfer assembly on dumped ingredients,
 CSR transposition and LAFEM::Transfer) -/
 open FeatModel FeatModel.Proto FeatModel.GT
@@ -58,6 +59,34 @@ def skipCfg : P Unit := do
   let _ ← ratList; let _ ← ratList
   pure ()
 
+def five (n : Nat) : Array Rat := Array.replicate n 5
+
+/-- the four vectors the harness prints for one transfer object: prol(x), rest(y), trunc(y), trunc(prol(x)) -/
+def quad (prolF : Array Rat → Option (Array Rat)) (restF truncF : Array Rat → Option (Array Rat)) (x y : Array Rat) :
+    Option String := do
+  let p ← prolF x
+  let r ← restF y
+  let t ← truncF y
+  let tp ← truncF p
+  pure s!"{showVec p.toList} {showVec r.toList} {showVec t.toList} {showVec tp.toList}"
+
+def identMir (n : Nat) : FeatModel.Dist.CMir := .leaf (List.range n)
+
+/-- `LT`, `GU`, `GN`, `FLAGS`, `GM` sections of the harness (`global_transfer_sections`) -/
+def globalSections (t : Transfer) (x y : Array Rat) : Option String := do
+  let nf := y.size; let nc := x.size
+  let lt ← quad (fun v => t.applyProl (five nf) v) (fun v => t.applyRest v (five nc)) (fun v => t.applyTrunc v (five nc)) x y
+  let gq (g : GTransfer) := quad (fun v => (g.prol [five nf] [five nc] v).map fun l => l.getD 0 #[])
+    (fun v => g.rest [v] [five nc] (five nc)) (fun v => g.trunc [v] [five nc] (five nc)) x y
+  let gu ← gq { muxer := none, locals := [t] }
+  let mNone : MuxerM := { commSize := 0, isParent := false, B := 0, pm := [], cm := [] }
+  let gn ← gq { muxer := some mNone, locals := [t] }
+  let mOne : MuxerM := { commSize := 1, isParent := true, B := nc, pm := [identMir nc], cm := [identMir nc] }
+  let gmT : GTransfer := { muxer := some mOne, locals := [t] }
+  let gm ← gq gmT
+  let b (x : Bool) := if x then "1" else "0"
+  pure s!" LT {lt} GU {gu} GN {gn} FLAGS {b mOne.isChild} {b mOne.isParent} {b mOne.isGhost} GM {gm}"
+
 def failStr : Fail → String
   | .abort => "ABORT"
   | .exc => "EXC"
@@ -80,6 +109,9 @@ def feCase (d : Dump) (ptr ind : List Nat) (x y : List Rat) : Except Fail String
   let r := transposeDense d.nf d.nc pd
   let pc := csrOfDense d.nf d.nc ptr ind pd
   let rc := (Transfer.ofProl pc (FeatModel.LA.Csr.entryFree d.nc d.nf)).rest
+  -- layout of the truncation matrix = transposed layout of the prolongation (`loc_trunc.transpose(loc_prol)`)
+  let tc := csrOfDense d.nc d.nf rc.rowPtr.toList rc.colInd.toList td
+  let g ← optAbort (globalSections (Transfer.ofProl pc tc) x.toArray y.toArray)
   let vf := pvecRaw d locs x
   let vd ← optAbort (scaleVec vf w)
   let xp := matVec d.nf d.nc pd x
@@ -88,7 +120,7 @@ def feCase (d : Dump) (ptr ind : List Nat) (x y : List Rat) : Except Fail String
   pure (s!"W {showVec w} P {showDense d.nf d.nc praw} PD {showDense d.nf d.nc pd} WT {showVec wt} " ++
     s!"T {showDense d.nc d.nf traw} TD {showDense d.nc d.nf td} R {showDense d.nc d.nf r} " ++
     s!"PC {showCsr pc} RC {showCsr rc} " ++
-    s!"VF {showVec vf} VW {showVec w} VD {showVec vd} XP {showVec xp} XR {showVec xr} XT {showVec xt}")
+    s!"VF {showVec vf} VW {showVec w} VD {showVec vd} XP {showVec xp} XR {showVec xr} XT {showVec xt} G{g}")
 
 def handle : P String := do
   let op ← tok
@@ -118,6 +150,20 @@ def handle : P String := do
     | some xp, some xr, some xt =>
       pure s!"R {showCsr t.rest} XP {showVec xp.toList} XR {showVec xr.toList} XT {showVec xt.toList}"
     | _, _, _ => pure "ABORT"
+  | "gxfer" =>
+    let prol ← csrP; let trunc ← csrP
+    let x ← ratList; let y ← ratList
+    match globalSections (Transfer.ofProl prol trunc) x.toArray y.toArray with
+    | some g => pure s!"G{g}"
+    | none => pure "ABORT"
+  | "gforbid" =>
+    let which ← nat
+    let prol ← csrP; let trunc ← csrP
+    let _ ← ratList; let _ ← ratList
+    let mOne : MuxerM := { commSize := 1, isParent := true, B := prol.cols, pm := [identMir prol.cols], cm := [identMir prol.cols] }
+    let g : GTransfer := { muxer := some mOne, locals := [Transfer.ofProl prol trunc] }
+    -- trunc_send / rest_send / prol_recv need a ghost process; prol_cancel must never be called
+    if which < 3 ∧ g.sendAllowed then pure "RETURNED" else pure "ABORT"
   | "fe" =>
     skipCfg
     let _ ← tok; let x ← ratList
